@@ -26,9 +26,29 @@ impl Look {
     }
 }
 
+/// Lazily formatted name of a lookup path (formatting it for every call dominated the run time).
+#[derive(Clone, Copy, Debug)]
+pub enum PathId {
+    Contains(Via, u8),
+    ToDirect(Via, u8),
+    Resolve(u8),
+    Read(u8, u8),
+}
+
+impl std::fmt::Display for PathId {
+    fn fmt(&self, f: &mut std::fmt::Formatter<'_>) -> std::fmt::Result {
+        match self {
+            PathId::Contains(via, k) => write!(f, "contains/{:?}/{}", via, KEY_KINDS[*k as usize]),
+            PathId::ToDirect(via, k) => write!(f, "to_direct/{:?}/{}", via, KEY_KINDS[*k as usize]),
+            PathId::Resolve(k) => write!(f, "resolve/{}", KEY_KINDS[*k as usize]),
+            PathId::Read(p, k) => write!(f, "{}/{}", READ_PATH_NAMES[*p as usize], KEY_KINDS[*k as usize]),
+        }
+    }
+}
+
 #[derive(Clone, Debug)]
 pub struct LookRes {
-    pub path: String,
+    pub path: PathId,
     /// Short class of the path ("contains", "to_direct", "resolve", "read") for signatures.
     pub class: &'static str,
     /// The call goes through the world (dispatching on the archetype byte), not through archetype A.
@@ -52,11 +72,11 @@ pub fn lookups<A: Arch>(world: &mut W, key: Hk<A>, catch_each: bool) -> Vec<Look
 /// debug-assertion build an out-of-range forged value trips the same `debug_assert!` on every path,
 /// and unwinding dominates the run time; the assertion-free build goes through every path).
 pub fn lookups_opt<A: Arch>(world: &mut W, key: Hk<A>, catch_each: bool, give_up_after_panics: bool) -> Vec<LookRes> {
-    let kn = KEY_KINDS[key.kind() as usize];
-    let mut out: Vec<LookRes> = Vec::new();
+    let kk = key.kind();
+    let mut out: Vec<LookRes> = Vec::with_capacity(20);
     macro_rules! call {
         ($path:expr, $class:expr, $wl:expr, $body:expr) => {{
-            let path: String = $path;
+            let path: PathId = $path;
             if give_up_after_panics && out.len() >= 3 && out.iter().all(|r| matches!(r.look, Look::Panicked(_))) {
                 // skip
             } else if catch_each {
@@ -71,20 +91,20 @@ pub fn lookups_opt<A: Arch>(world: &mut W, key: Hk<A>, catch_each: bool, give_up
         }};
     }
     for via in [Via::World, Via::Arch] {
-        call!(format!("contains/{:?}/{}", via, kn), "contains", via == Via::World, {
+        call!(PathId::Contains(via, kk), "contains", via == Via::World, {
             (if A::x_contains(world, key, via) { Look::Accepted } else { Look::Rejected }, None, None)
         });
-        call!(format!("to_direct/{:?}/{}", via, kn), "to_direct", via == Via::World, {
+        call!(PathId::ToDirect(via, kk), "to_direct", via == Via::World, {
             let d = A::x_to_direct(world, key, via);
             (if d.is_some() { Look::Accepted } else { Look::Rejected }, None, d)
         });
     }
-    call!(format!("resolve/{}", kn), "resolve", false, {
+    call!(PathId::Resolve(kk), "resolve", false, {
         (if A::x_resolve(world, key).is_some() { Look::Accepted } else { Look::Rejected }, None, None)
     });
     for path in 0..N_READ_PATHS {
         if read_path_applicable(path, key.kind()) {
-            call!(format!("{}/{}", READ_PATH_NAMES[path as usize], kn), "read", is_world_level_read(path), {
+            call!(PathId::Read(path, kk), "read", is_world_level_read(path), {
                 match A::read(world, key, path) {
                     Some(r) => (Look::Reached(r.uid()), r.bits, r.direct),
                     None => (Look::Rejected, None, None),
